@@ -343,7 +343,7 @@ def execute(plan):
         out.oracle_checks += 1
         d = None
         for hh, pp in run.peps.items():
-            d = N.same(pp['nf'], N.norm_ann(pp['a']))
+            d = N.same_strict(pp['nf'], N.norm_ann(pp['a']))
             if d is not None:
                 d = f"{hh}: {d}"
                 break
